@@ -333,8 +333,11 @@ def divide_zero(state):
     """Zero Divider
 
     Returns:
-        ``[0, 0]`` regardless of input
+        ``[0, 0]`` regardless of input; for a value with units, zero of
+        those units (the variable keeps holding a quantity).
     """
+    if isinstance(state, Quantity):
+        return [0 * state.units, 0 * state.units]
     return [0, 0]
 
 
